@@ -92,6 +92,79 @@ pub fn run(ctx: &mut Ctx) {
             }
         }
     }
+    // ---- what the two loggers of the endpoint actually write (`log()`, which the logging macros call directly - not
+    // `enabled()`): one record per maximum x level x target through the real file logger and the real stdout logger (the
+    // process's stdout pointed at a scratch file meanwhile), then the outputs are searched for each record's marker -----
+    {
+        use log::{Level, LevelFilter, Log};
+        use std::io::Write;
+        use std::os::unix::io::AsRawFd;
+        let dir = std::env::temp_dir().join(format!("tt_c20_{}", std::process::id()));
+        let _ = std::fs::create_dir_all(&dir);
+        let fpath = dir.join("file.log");
+        let opath = dir.join("stdout.log");
+        let targets = ["rustls::server::hs", "rustls::server::server_conn", "rustls", "trusttunnel::core", "h2::codec"];
+        let maxes = [LevelFilter::Off, LevelFilter::Error, LevelFilter::Info, LevelFilter::Debug, LevelFilter::Trace];
+        let max_idx = [0usize, 1, 3, 4, 5];
+        let levels = [Level::Error, Level::Warn, Level::Info, Level::Debug, Level::Trace];
+        match trusttunnel::log_utils::make_file_logger(fpath.to_str().unwrap()) {
+            Ok(file_logger) => {
+                let stdout_logger = trusttunnel::log_utils::make_stdout_logger();
+                let _ = std::io::stdout().flush();
+                let saved = unsafe { libc::dup(1) };
+                let of = std::fs::File::create(&opath).ok();
+                let redirected = match (&of, saved >= 0) {
+                    (Some(f), true) => unsafe { libc::dup2(f.as_raw_fd(), 1) >= 0 },
+                    _ => false,
+                };
+                for (mi, m) in maxes.iter().enumerate() {
+                    log::set_max_level(*m);
+                    for (li, l) in levels.iter().enumerate() {
+                        for (ti, t) in targets.iter().enumerate() {
+                            let marker = format!("MARK-{}-{}-{}-END", mi, li, ti);
+                            let emit = |args: std::fmt::Arguments| {
+                                let rec = log::Record::builder().level(*l).target(t).args(args).build();
+                                file_logger.log(&rec);
+                                if redirected {
+                                    stdout_logger.log(&rec);
+                                }
+                            };
+                            emit(format_args!("{}", marker));
+                        }
+                    }
+                }
+                file_logger.flush();
+                let _ = std::io::stdout().flush();
+                if redirected {
+                    unsafe {
+                        libc::dup2(saved, 1);
+                    }
+                }
+                if saved >= 0 {
+                    unsafe {
+                        libc::close(saved);
+                    }
+                }
+                let ftext = std::fs::read_to_string(&fpath).unwrap_or_default();
+                let otext = std::fs::read_to_string(&opath).unwrap_or_default();
+                for (mi, _) in maxes.iter().enumerate() {
+                    for (li, _) in levels.iter().enumerate() {
+                        for (ti, t) in targets.iter().enumerate() {
+                            let marker = format!("MARK-{}-{}-{}-END", mi, li, ti);
+                            for (which, text, on) in [("file", &ftext, true), ("stdout", &otext, redirected)] {
+                                if on {
+                                    ctx.emit(&format!("c20 written {} {} {} {}", which, max_idx[mi], li + 1, hex(t.as_bytes())), if text.contains(&marker) { "1" } else { "0" });
+                                    ctx.stat("logger_written_points");
+                                }
+                            }
+                        }
+                    }
+                }
+            }
+            Err(e) => ctx.notes.push(format!("c20: the file logger could not be made ({}): what the loggers write was not observed", e)),
+        }
+        let _ = std::fs::remove_dir_all(&dir);
+    }
     log::set_max_level(log::LevelFilter::Trace);
 
     // ---- scrubbers vs the model ---------------------------------------------------------------------
